@@ -250,7 +250,8 @@ func (b *assignmentBuilder) createWithConverter(lhs, rhs bmodel.Node, converter 
 				return nil
 			}
 			argNode, ok = b.castNode(util.DerefPtr(converter.ArgType()), rhsNode)
-			if !ok {
+			if !ok || !isAddressable(argNode) {
+				// The converter takes a pointer: the argument's address must exist.
 				return nil
 			}
 		}
